@@ -55,7 +55,7 @@ def main():
                     bad.append(dict(cls=repr(cls), order=[repr(t) for t in perm][:8], layers_differ=True))
                     break
         if bad:
-            failing.append(dict(name=f"sort_types_order_free[{fam}]", n_violations=len(bad), violations=bad[:2]))
+            failing.append(dict(name=f"sort_types_order_free[{fam}]", n_violations=len(bad), violations=bad[:2], inputs=sorted({b["cls"] for b in bad})))
     # end to end: two deferred references at one argument position, both registration orders
     from ovld import Ovld
 
